@@ -130,7 +130,7 @@ type model struct {
 	HasSvc   bool // every reading ends in service-mode records
 	Clean    bool // every name a connection could be made to has at least one address
 	Aliased  bool
-	AliasUp  bool // the query name holds alias-mode records only, and following them (real targets, no loop, at most 3 hops) ends at a name that has addresses and no HTTPS record at all
+	AliasUp  bool // the query name holds alias-mode records only, and following them (real targets, no loop, at most 3 hops) ends at a name that has addresses and no HTTPS record at all; or it holds just the alias to "." and the origin has addresses
 	z        *dohfake.Zone
 	o        originSpec
 	port     int
@@ -144,6 +144,11 @@ func buildModel(z *dohfake.Zone, o originSpec, plainPort int) *model {
 	m.Aliased = m.AnyRR && top[0].Priority == 0
 	m.Readings = readings(z, m.QName, map[string]bool{m.QName: true})
 	m.AliasUp = aliasOnly(z, m.QName)
+	// ... or the only record is the alias to "." ("the service is not available here", RFC 9460 2.5.1): still an
+	// AliasMode record of the origin (9.5), and the connection that follows goes to the origin's own addresses
+	if len(top) == 1 && top[0].Priority == 0 && isRoot(top[0].Target) && len(addrsAt(z, o.Host)) > 0 {
+		m.AliasUp = true
+	}
 	m.HasSvc, m.Clean = true, true
 	for _, rd := range m.Readings {
 		if len(rd.Svc) == 0 {
